@@ -43,6 +43,11 @@ def one(flavor, memb, seed, readers, updaters, rops, uops, extra=()):
         res.update(verdict="oracle", kinds=kinds, oracle=err.strip().splitlines()[:4])
     elif drc != 0:
         res.update(verdict="diverge")
+        m = re.search(r"DIVERGE line (\d+)", dout)
+        if m:
+            ls = out.splitlines()
+            n = int(m.group(1))
+            res["context"] = ls[max(0, n - 6):n]
     else:
         res.update(verdict="ok")
         res["cov"] = dict((k, int(v)) for k, v in (x.split("=") for x in dout.split()[2:] if "=" in x))
@@ -139,6 +144,19 @@ def report(chk, fails, own_kinds, search):
                                          model_run=["reg 0", "rLd 0", "rSt 0 (buffered)", "rEnter 0", "rRead 0 (X=0)", "uStart tracked",
                                                     "uMbarRet", "uScan1Inactive 0 (stale memory word)", "uFlip", "uP2Done -> synchronize_rcu returns, reader 0 still inside"],
                                          what="the code no longer issues the fence the x86-TSO proof needs (%s); Lean-checked TSO run of the algorithm without it violates gp_guarantee and gp_litmus" % dmsg[:160]))
+            return
+    ctx = " ".join(f.get("context") or [])
+    if "C02" == chk.pid and ("[reader slave fence]" in dmsg or "[master barrier" in dmsg) and re.search(r"\b(SUB|ADD|DEC|ST|LD)\w* gp\.futex", ctx):
+        # a fence of the futex handshake is missing (between the leader's `dec futex` and its scan, or between the reader's
+        # unlock store and its test of the futex): invisible to the SC harness, the Lean-checked x86-TSO run of the handshake
+        # without fences is the concrete failing history
+        ok, log = vlib.lake_build(["UrcuVerif.Props.C02"])
+        if ok:
+            chk.fail("tso-witness", dict(f, scenario="gp", theorem="UrcuVerif.Handshake.lost_wakeup_without_fences",
+                                         model_run=["k0 0 (reader's unlock store, buffered)", "kf 0", "k1 0 (reader loads futex = 0)", "k2Skip 0 (no wake)",
+                                                    "w0 (leader: futex := -1)", "wbarRet (no forced fence)", "w1Some 0 (scan: memory still says active)",
+                                                    "w2Sleep -> leader asleep on futex = -1, nobody left to wake it"],
+                                         what="the code no longer issues a fence the x86-TSO handshake proof needs (%s); Lean-checked TSO run of the handshake without it loses the wake-up" % dmsg[:160]))
             return
     chk.fail("divergence" if f["verdict"] != "crash" else "crash",
              dict(f, scenario="gp", correspondence="Driver/Gp.lean vs src/urcu.c, src/urcu-qsbr.c, src/urcu-bp.c + static headers",
